@@ -344,11 +344,12 @@ macro_rules! access_2d_slice_all_bool {
       }
       j = 0;
       for i in 0..vec_ix.len() {
-        for k in 0..(*$source).ncols() {
-          if vec_ix[i] == true {
-            (&mut (*$out))[j] = (*$source).index((i, k)).clone();
-            j += 1;
+        if vec_ix[i] == true {
+          // j-th selected row: out is column-major, so address it by (row, column)
+          for k in 0..(*$source).ncols() {
+            (&mut (*$out))[(j, k)] = (*$source).index((i, k)).clone();
           }
+          j += 1;
         }
       }
     }};}
